@@ -264,7 +264,10 @@ class Check(object):
             'violations': len(self.violations),
         }
         os.makedirs(EVIDENCE, exist_ok=True)
-        with open(os.path.join(EVIDENCE, '%s.json' % self.pid), 'w') as f:
+        # framework self-tests (mutant / seeded runs) must not overwrite the evidence of the real tree
+        target = os.path.join(EVIDENCE, '%s.json' % self.pid) if not os.environ.get('VERIF_SCRATCH_EVIDENCE') \
+            else os.path.join(self.work + '_evidence.json')
+        with open(target, 'w') as f:
             json.dump(ev, f, indent=1, default=repr)
             f.write('\n')
         shutil.rmtree(self.work, ignore_errors=True)
